@@ -73,12 +73,19 @@ func (ch *ConnectionHandler) acceptStream() {
 		var stream net.Conn
 
 		stream, err := ch.session.AcceptStream()
-		if err == os.ErrClosed || err == io.EOF {
-			log.Debugf("Stream closed, existing loop.")
+		if err != nil {
+			// Every error the multiplexer reports here is terminal for the session: it has been closed,
+			// the carrier failed, or the peer violated the protocol. Retrying would return the very
+			// same error immediately and for ever, so end the session and leave the loop.
+			if err == os.ErrClosed || err == io.EOF || err == io.ErrClosedPipe {
+				log.Debugf("Session closed, exiting loop.")
+			} else {
+				log.WithError(err).Errorf("Error accepting stream, closing session: %v", err)
+			}
+			if !ch.session.IsClosed() {
+				_ = ch.session.Close()
+			}
 			return
-		} else if err != nil {
-			log.WithError(err).Errorf("Error accepting stream: %v", err)
-			continue
 		}
 		stream = streams.NewNamedConnection(stream, stream.RemoteAddr().String())
 		log.Debugf("[Server] New logical connection accepted: %v", stream)
